@@ -299,6 +299,14 @@ add("prec-last-token-right", "%start E\n%right '?'\n%%\nE: E '?' E ':' E | 'n';\
 add("prec-last-token2", "%start E\n%left '+'\n%left '*'\n%%\nE: E '+' E 'k' | E '*' E | 'n' | E 'k';\n", tags=["prec", "conflicts"], inputs=["n + n k", "n * n + n k", "n k k"])
 
 
+# Eco grammars with implicit tokens: the synthesised productions come AFTER the start production
+add("eco-calc", "%start E\n%implicit_tokens 'ws'\n%%\nE: E '+' T | T;\nT: 'n' | '(' E ')';\n", kind="eco", tags=["eco", "rec"],
+    inputs=["n + n", "ws n ws + ws n ws", "( n ws ) + n", "n + ws", "ws", "n n", "( ws n"])
+add("eco-nullable", "%start S\n%implicit_tokens 'ws' 'nl' 'cm'\n%%\nS: A 'x' | ;\nA: | 'a' A;\n", kind="eco", tags=["eco", "nullable"],
+    inputs=["", "ws", "x", "a ws a nl x cm", "nl cm ws", "a a"])
+add("eco-avoid", "%start S\n%implicit_tokens 'ws'\n%avoid_insert 'ws'\n%%\nS: 'k' 'v' S | 'e';\n", kind="eco", tags=["eco", "rec"],
+    inputs=["k v e", "k ws v ws e", "k e", "v e", "k v"])
+
 assert len(set(c["id"] for c in CAT)) == len(CAT), "duplicate catalogue ids"
 
 
